@@ -10,7 +10,7 @@ Proof.
   destruct (step s l) eqn:E; [|discriminate]. eapply IH; [|exact H]. eapply Hs; eauto.
 Qed.
 
-(* ================================================================== Operation.Limit: CAS counter *)
+(* ================================================================== Operation.Limit: CAS retry loop *)
 Section CasNet.
 Variable n : Z.
 Hypothesis Hn : 0 < n.
@@ -19,6 +19,7 @@ Definition cthread_ok (s : cstate) (t : Z) : Prop :=
   match c_pc s t with
   | CIdle | CDone _ => ~ In t (c_active s) /\ ~ In t (c_running s)
   | CEntry => In t (c_active s) /\ ~ In t (c_running s)
+  | CLoaded cur => In t (c_active s) /\ ~ In t (c_running s) /\ 0 <= cur <= c_counter s /\ cur < n
   | CRunning => In t (c_active s) /\ In t (c_running s)
   end.
 
@@ -46,25 +47,35 @@ Ltac cothers Ithr x :=
   pose proof (Ithr x) as Hx; unfold cthread_ok in Hx |- *; simpl in *;
   destruct (c_pc _ x) eqn:?; rewrite ?remove1_in; simpl; intuition (try congruence; try lia).
 
-Lemma cinv_step s l s' : cinv s -> cstep_exec n s l = Some s' -> cinv s'.
+(* the invariant is the one of the code as written: with the retry *)
+Lemma cinv_step s l s' : cinv s -> cstep_exec true n s l = Some s' -> cinv s'.
 Proof.
   intros I H. pose proof I as [Icnt Ithr Ind Indr Iruns Icalls Iran Iskip].
   destruct l as [t|t|t|t]; simpl in H;
     pose proof (Ithr t) as Ht; unfold cthread_ok in Ht;
     destruct (c_pc s t) eqn:Pt; try discriminate.
-  - inv H. destruct Ht as [Ha Hr]. constructor; simpl; auto; try lia.
+  - (* call *)
+    inv H. destruct Ht as [Ha Hr]. constructor; simpl; auto; try lia.
     + intros x. unfold cthread_ok. simpl. upd_cases x t; [simpl; tauto|]. cothers Ithr x.
     + constructor; assumption.
-  - destruct (c_counter s <? n) eqn:Cn; inv H. apply Z.ltb_lt in Cn. destruct Ht as [Ha Hr].
-    constructor; simpl; auto; try lia.
-    + intros x. unfold cthread_ok. simpl. upd_cases x t; [simpl; tauto|]. cothers Ithr x.
-    + constructor; assumption.
-  - destruct (c_counter s <? n) eqn:Cn; inv H. apply Z.ltb_ge in Cn. destruct Ht as [Ha Hr].
-    constructor; simpl; auto; try lia.
-    + intros x. unfold cthread_ok. simpl. upd_cases x t; [simpl; rewrite remove1_in; tauto|]. cothers Ithr x.
-    + now apply remove1_nodup.
-    + pose proof (remove1_length t (c_active s) Ind Ha). lia.
-  - inv H. destruct Ht as [Ha Hr].
+  - (* load *)
+    destruct Ht as [Ha Hr]. destruct (c_counter s <? n) eqn:Cn; inv H.
+    + apply Z.ltb_lt in Cn. constructor; simpl; auto; try lia.
+      intros x. unfold cthread_ok. simpl. upd_cases x t; [simpl; intuition lia|]. cothers Ithr x.
+    + apply Z.ltb_ge in Cn. constructor; simpl; auto; try lia.
+      * intros x. unfold cthread_ok. simpl. upd_cases x t; [simpl; rewrite remove1_in; tauto|]. cothers Ithr x.
+      * now apply remove1_nodup.
+      * pose proof (remove1_length t (c_active s) Ind Ha). lia.
+  - (* compare-and-swap *)
+    destruct Ht as (Ha & Hr & Hcur & Hlt). destruct (c_counter s =? cur) eqn:Ce; inv H.
+    + apply Z.eqb_eq in Ce. subst cur. constructor; simpl; auto; try lia.
+      * intros x. unfold cthread_ok. simpl. upd_cases x t; [simpl; tauto|]. cothers Ithr x.
+      * constructor; assumption.
+    + (* lost the race: re-read *)
+      constructor; simpl; auto; try lia.
+      intros x. unfold cthread_ok. simpl. upd_cases x t; [simpl; tauto|]. cothers Ithr x.
+  - (* the operation returned *)
+    inv H. destruct Ht as [Ha Hr].
     constructor; simpl; auto; try lia.
     + intros x. unfold cthread_ok. simpl. upd_cases x t; [simpl; rewrite !remove1_in; tauto|]. cothers Ithr x.
     + now apply remove1_nodup.
@@ -73,11 +84,12 @@ Proof.
     + pose proof (remove1_length t (c_running s) Indr Hr). lia.
 Qed.
 
-Lemma cinv_reach s : creach n s -> cinv s.
+Lemma cinv_reach s : creach true n s -> cinv s.
 Proof. induction 1; eauto using cinv_init, cinv_step. Qed.
 
-(* Operation.Limit(n): never more than n executions are started, and when no call is in progress exactly min(n, calls) were *)
-Theorem limit_cas_net_proof s : creach n s ->
+(* Operation.Limit(n) with its Load / CompareAndSwap retry loop: never more than n executions are started, and when no
+   call is in progress exactly min(n, calls) were *)
+Theorem limit_cas_net_proof s : creach true n s ->
   Z.of_nat (c_runs s) <= n /\ (c_active s = [] -> Z.of_nat (c_runs s) = Z.min n (Z.of_nat (c_calls s))).
 Proof.
   intros Hr. apply cinv_reach in Hr. destruct Hr as [Icnt Ithr Ind Indr Iruns Icalls Iran Iskip].
@@ -90,6 +102,27 @@ Proof.
   destruct (c_rets_skipped s) eqn:RS; [lia|]. assert (c_counter s = n) by (apply Iskip; lia). lia.
 Qed.
 End CasNet.
+
+(* without the retry (`current < n && CAS(current, current+1)`) the property is false: two callers load 0, one wins the
+   CAS, the other is turned away although the limit 2 has not been reached *)
+Definition cas_noretry_labels : list clabel := [CCall 1; CCall 2; CLoad 1; CLoad 2; CCas 1; CCas 2; CEnd 1].
+Definition cas_noretry_state : cstate :=
+  match steps (cstep_exec false 2) cinit cas_noretry_labels with Some s => s | None => cinit end.
+
+Lemma creach_steps_gen retry n ls : forall s s', creach retry n s -> steps (cstep_exec retry n) s ls = Some s' -> creach retry n s'.
+Proof.
+  induction ls as [|l ls IH]; intros s s' Hr H; simpl in H; [now inv H|].
+  destruct (cstep_exec retry n s l) eqn:E; [|discriminate]. eapply IH; [|exact H]. eapply creach_step; eauto.
+Qed.
+
+Theorem limit_cas_noretry_refuted :
+  creach false 2 cas_noretry_state /\ c_active cas_noretry_state = [] /\
+  c_calls cas_noretry_state = 2%nat /\ c_runs cas_noretry_state = 1%nat.
+Proof.
+  split.
+  - apply (creach_steps_gen false 2 cas_noretry_labels cinit); [apply creach_init|]. vm_compute. reflexivity.
+  - repeat split; vm_compute; reflexivity.
+Qed.
 
 (* ================================================================== Operation.Signal / Operation.Launch *)
 Record sinv (s : sstate) : Prop := {
@@ -321,14 +354,14 @@ Proof.
     eauto 6 using lreach_step', lreach_steps'.
 Qed.
 
-Lemma creach_step' n s l s' : creach n s -> cstep_exec n s l = Some s' -> creach n s'.
+Lemma creach_step' n s l s' : creach true n s -> cstep_exec true n s l = Some s' -> creach true n s'.
 Proof. intros; eapply creach_step; eauto. Qed.
-Lemma creach_steps' n s ls s' : creach n s -> steps (cstep_exec n) s ls = Some s' -> creach n s'.
-Proof. intros Hr H. eapply (steps_reach (cstep_exec n) (creach n)); eauto using creach_step'. Qed.
+Lemma creach_steps' n s ls s' : creach true n s -> steps (cstep_exec true n) s ls = Some s' -> creach true n s'.
+Proof. intros; eapply creach_steps_gen; eauto. Qed.
 
-Theorem climit_replay_sound n all evs s : replay (climit_tr n all) cinit evs = Some s -> creach n s.
+Theorem climit_replay_sound n all evs s : replay (climit_tr n all) cinit evs = Some s -> creach true n s.
 Proof.
-  apply (replay_reach (climit_tr n all) (creach n)); [|apply creach_init].
+  apply (replay_reach (climit_tr n all) (creach true n)); [|apply creach_init].
   intros s0 e s1 Hr H. destruct e as [t|t|t v|t v]; unfold climit_tr in H; dec;
     eauto 6 using creach_step', creach_steps'.
 Qed.
